@@ -481,13 +481,29 @@ func runC18(cfg Config) {
 				os.Symlink("..", filepath.Join(dst, "n1"))
 			}
 			before := snapshotOutside(sandbox)
-			fs := desync.NewLocalFS(dst, desync.LocalFSOptions{NoSameOwner: true})
-			guard(func() string { desync.UnTar(context.Background(), bytes.NewReader(b), fs); return "" })
+			initial := fsEntries(sandbox)
+			nsp := rng.Intn(2) == 0
+			fs := desync.NewLocalFS(dst, desync.LocalFSOptions{NoSameOwner: true, NoSamePermissions: nsp})
+			var uerr error
+			guard(func() string { uerr = desync.UnTar(context.Background(), bytes.NewReader(b), fs); return "" })
 			after := snapshotOutside(sandbox)
 			if before != after {
 				monitor("unpacking changed something outside the destination directory: before ["+before+"] after ["+after+"]", line, got)
 			}
 			rep.Histogram["disk-runs"]++
+			// correspondence of the LocalFS / POSIX model: same archive, same initial tree -> same final tree
+			lline := fmt.Sprintf("lfs.untar root=%s nso=1 nsp=%d fs=%s bytes=%s", hx([]byte(dst)), b2i(nsp), strings.Join(append(ancestorEntries(sandbox), initial...), ";"), hx(b))
+			if want := m.Ask(lline); want != "no-model" {
+				gotFS := "err"
+				if uerr == nil {
+					gotFS = "ok"
+				}
+				if diff := compareFS(want, gotFS, fsEntries(sandbox), sandbox); diff != "" {
+					rep.Disagree(Disagreement{Kind: "correspondence", Case: clip(lline, 100000), Model: clip(want, 3000), Impl: clip(gotFS+" "+strings.Join(fsEntries(sandbox), ";"), 3000),
+						What: "LocalFS model and the real file system differ after UnTar: " + diff})
+				}
+				rep.Count(lline, names >= 2, "lfs:"+gotFS)
+			}
 		}
 	}
 	os.RemoveAll(sandbox)
@@ -525,4 +541,97 @@ func snapshotOutside(sandbox string) string {
 		out = append(out, "parent:"+e.Name())
 	}
 	return strings.Join(out, ",")
+}
+
+// fsEntries lists the tree at top (links not followed) in the model's entry format:
+// <hex real path>|<d|f|l|v>|<hex data or target>|<mtime ns>
+func fsEntries(top string) []string {
+	var out []string
+	filepath.Walk(top, func(p string, info os.FileInfo, err error) error {
+		if err != nil {
+			return nil
+		}
+		mt := fmt.Sprint(info.ModTime().UnixNano())
+		switch {
+		case info.IsDir():
+			out = append(out, hx([]byte(p))+"|d||"+mt)
+		case info.Mode()&os.ModeSymlink != 0:
+			t, _ := os.Readlink(p)
+			out = append(out, hx([]byte(p))+"|l|"+hx([]byte(t))+"|-")
+		case info.Mode().IsRegular():
+			b, _ := os.ReadFile(p)
+			out = append(out, hx([]byte(p))+"|f|"+hx(b)+"|"+mt)
+		default:
+			out = append(out, hx([]byte(p))+"|v||"+mt)
+		}
+		return nil
+	})
+	return out
+}
+
+// ancestorEntries: the directories above top, as real directories
+func ancestorEntries(top string) []string {
+	var out []string
+	for d := filepath.Dir(top); d != "/" && d != "."; d = filepath.Dir(d) {
+		out = append(out, hx([]byte(d))+"|d||-")
+	}
+	return out
+}
+
+// compareFS compares the model's answer ("ok|err fs=...") with the verdict and the tree on disk,
+// restricted to the tree at top; an mtime is compared where the model says it was set explicitly
+func compareFS(model, verdict string, disk []string, top string) string {
+	parts := strings.SplitN(model, " fs=", 2)
+	if len(parts) != 2 {
+		return "model answered " + clip(model, 100)
+	}
+	if parts[0] != verdict {
+		return "verdict: model " + parts[0] + ", implementation " + verdict
+	}
+	type ent struct{ kind, payload, mt string }
+	parse := func(es []string) map[string]ent {
+		m := map[string]ent{}
+		for _, e := range es {
+			f := strings.Split(e, "|")
+			if len(f) != 4 {
+				continue
+			}
+			p := string(unhx(f[0]))
+			if p != top && !strings.HasPrefix(p, top+"/") {
+				continue
+			}
+			m[p] = ent{f[1], f[2], f[3]}
+		}
+		return m
+	}
+	var mes []string
+	if parts[1] != "" {
+		mes = strings.Split(parts[1], ";")
+	}
+	mm, dm := parse(mes), parse(disk)
+	var keys []string
+	for k := range mm {
+		keys = append(keys, k)
+	}
+	for k := range dm {
+		if _, ok := mm[k]; !ok {
+			keys = append(keys, k)
+		}
+	}
+	sort.Strings(keys)
+	for _, k := range keys {
+		a, okA := mm[k]
+		d, okD := dm[k]
+		switch {
+		case !okA:
+			return "on disk only: " + k
+		case !okD:
+			return "in the model only: " + k
+		case a.kind != d.kind || a.payload != d.payload:
+			return fmt.Sprintf("%s: model %s:%s, disk %s:%s", k, a.kind, clip(a.payload, 40), d.kind, clip(d.payload, 40))
+		case a.mt != "-" && a.mt != d.mt:
+			return fmt.Sprintf("%s: mtime model %s, disk %s", k, a.mt, d.mt)
+		}
+	}
+	return ""
 }
